@@ -369,7 +369,14 @@ func (s *Server) Snapshot() (raft.FSMSnapshot, error) {
 			protoStream.CreationTimestamp = creationTime.UnixNano()
 		}
 		for j, partition := range partitions {
-			protoStream.Partitions[j] = partition.Partition
+			// Persist runs concurrently with Apply, which keeps mutating the
+			// partition's protobuf, so the snapshot needs its own copy taken
+			// under the partition lock.
+			protoPartition := &proto.Partition{}
+			if err := protoPartition.Unmarshal(partition.Marshal()); err != nil {
+				return nil, err
+			}
+			protoStream.Partitions[j] = protoPartition
 		}
 		protoStreams[i] = protoStream
 	}
